@@ -47,6 +47,13 @@ def run(ck, prog):
         for conds, _ in code:
             for c in conds:
                 atoms |= _cond_atoms(c)
+        from lcsa.sym import ABS_REG
+        inner = set()
+        for a in list(atoms):
+            if a in ABS_REG:                      # |expr| is decided exactly through its two sign cases
+                atoms.discard(a)
+                inner |= ABS_REG[a].atoms()
+        atoms |= inner
         ck.shape(atoms <= {"D", "DM", "N"}, "kappa: branches on %s besides delta(), deltaMax() and the length" % sorted(atoms - {"D", "DM", "N"}), f.loc())
         if regime == "DM>0":
             dom = dom + [Lin({"N": -1}, 6, "<=")]
